@@ -15,6 +15,8 @@
       from <array|box|vec|other|slice|slice_copy|cow_b|cow_o|iter> hint v…
   bounds: i<n> (included) | x<n> (excluded) | u;  script: letters n (next) / b (next_back), - if empty.
   One output line per input line:   <ret> | len=<n> cap=<n> [v1 v2 …]
+  A payload may be given as a count, `*n` = n copies of 0: `append <kind> *n`, `ext_slice *n`,
+  `ext_copy *n`, `ext_iter <hint> *n`, `from iter <hint> *n` (sources longer than any list).
   (`const_append` prints `<ret> other=<v,…|-> | …`: the source vector afterwards.)
   A line `@<k> <op…>` runs the operation on the state saved in slot `k` and saves the result in
   slot `k+1` (the configuration line fills slot 0): this lets a depth-first enumeration of
@@ -98,6 +100,22 @@ def parseOp (ws : List String) : Option (Op Nat) :=
   | "from" :: s :: h :: vs => do some (.from (← src? s) (← nat? h) (← nats? vs))
   | _ => none
 
+/-- A counted payload: `append <kind> *n`, `ext_slice *n`, `ext_copy *n`, `ext_iter <hint> *n`,
+    `from iter <hint> *n` — `n` copies of the value 0 (the only value of a zero-sized type),
+    answered by `stepRep` without materialising the list. -/
+def parseRep (ws : List String) : Option (RepShape × Nat) :=
+  let count? (w : String) : Option Nat :=
+    match w.toList with
+    | '*' :: ds => (String.ofList ds).toNat?
+    | _ => none
+  match ws with
+  | ["append", _kind, c] => do some (.append, ← count? c)
+  | ["ext_slice", c] => do some (.extendFromSlice, ← count? c)
+  | ["ext_copy", c] => do some (.extendFromSliceCopy, ← count? c)
+  | ["ext_iter", h, c] => do some (.extend (← nat? h), ← count? c)
+  | ["from", "iter", h, c] => do some (.fromIter (← nat? h), ← count? c)
+  | _ => none
+
 def showList (l : List Nat) (sep : String) : String :=
   sep.intercalate (l.map toString)
 
@@ -159,6 +177,22 @@ def handle (st : St) (line : String) : St × String :=
       | none => (st, "panic:overflow | " ++ st.show)
     | _, _, _, _ => (st, "error:config")
   | _ =>
+    match parseRep ws with
+    | some (sh, n) =>
+      match st with
+      | .none => (st, "error:unconfigured")
+      | .iv s =>
+        let (o, s') := s.stepRep sh n 0
+        let st' := St.iv s'
+        (st', showOutcome o ++ " | " ++ st'.show)
+      | .tv s =>
+        match sh with
+        | .fromIter _ => (st, "unsupported | " ++ st.show)
+        | _ =>
+          let (o, s') := s.stepRep sh n 0
+          let st' := St.tv s'
+          (st', showOutcome o ++ " | " ++ st'.show)
+    | none =>
     match parseOp ws with
     | none => (st, "error:parse")
     | some op =>
